@@ -1548,8 +1548,12 @@ convert_array_from_object(char *data, CTypeDescrObject *ct, PyObject *init)
                              "(got %zd characters)", ct->ct_name, n);
                 return -1;
             }
-            if (n != ct->ct_length)
+            if (n != ct->ct_length) {
+                /* there is room for the final null character: write it
+                   too, like the 'char' case above does */
+                memset(data + n * ctitem->ct_size, 0, ctitem->ct_size);
                 n++;
+            }
             if (ctitem->ct_size == 4)
                 return _my_PyUnicode_AsChar32(init, (cffi_char32_t *)data, n);
             else
